@@ -246,6 +246,37 @@ fn naming(case: &Value) -> Value {
     json!({"id": case["id"], "out": out})
 }
 
+/// case {"id", "kind": "emit"|"attr"|"param", "src"} -> what the walker found, under catch_unwind:
+/// emit: event names found by EventParser; attr: number of commands CommandParser finds;
+/// param: names of the parameters kept by CommandParser
+fn walker(case: &Value) -> Value {
+    let kind = case["kind"].as_str().unwrap().to_string();
+    let src = case["src"].as_str().unwrap().to_string();
+    let Ok(ast) = syn::parse_file(&src) else {
+        return json!({"id": case["id"], "skip": true});
+    };
+    let out = guarded(|| {
+        let mut tr = TypeResolver::new();
+        let path = std::path::Path::new("walker.rs");
+        if kind == "emit" {
+            let evs = tauri_typegen::analysis::event_parser::EventParser::new()
+                .extract_events_from_ast(&ast, path, &mut tr)
+                .expect("events");
+            json!(evs.iter().map(|e| e.event_name.clone()).collect::<Vec<_>>())
+        } else {
+            let cmds = tauri_typegen::analysis::command_parser::CommandParser::new()
+                .extract_commands_from_ast(&ast, path, &mut tr)
+                .expect("commands");
+            if kind == "attr" {
+                json!(cmds.len())
+            } else {
+                json!(cmds.iter().flat_map(|c| c.parameters.iter().map(|p| p.name.clone())).collect::<Vec<_>>())
+            }
+        }
+    });
+    json!({"id": case["id"], "out": out})
+}
+
 struct Inv {
     camel_variants: Vec<String>,
     idents: Vec<String>,
@@ -381,6 +412,7 @@ fn main() {
         ("type", type_),
         ("prefix", prefix),
         ("tskey", tskey),
+        ("walker", walker),
         ("naming", naming),
         ("inventory", inventory),
         ("project", project),
